@@ -261,7 +261,8 @@ def run_direct(case, ctx):
 
 # ---------------------------------------------------------------- directed: structural operations on tables with any names
 STRUCT_NAMES = ["a", "b", "a", "c", None, "A", "a b", "k", "a__1", "sum"]
-STRUCT_OPS = ["lshift_row", "lshift_rows", "lshift_table", "rshift_vec", "rshift_dict", "rshift_table", "slice", "mask", "transpose2"]
+STRUCT_OPS = ["lshift_row", "lshift_rows", "lshift_table", "rshift_vec", "rshift_dict", "rshift_table", "slice", "mask", "transpose2",
+              "lshift_short", "lshift_long", "lshift_narrow_table", "rshift_iter", "rshift_gen", "rshift_tuple", "rshift_range"]
 
 
 @st.composite
@@ -307,6 +308,36 @@ def run_struct(case, ctx):
             other = S.Table([S.Vector(list(e), name=nm) for nm, e in zip(names, case["extra"])])
             res = t << other
             want = [c + fz([e])[0] for c, e in zip(before, case["extra"])]
+        elif op in ("lshift_short", "lshift_long", "lshift_narrow_table"):
+            # a row / block with another number of cells than the table has columns would leave the table ragged: rejected
+            cells_ = [e[0] for e in case["extra"]]
+            if op == "lshift_short":
+                if k < 2:
+                    return
+                bad = cells_[:-1] if case["mask"][:1] != [True] else tuple(cells_[:-1])
+            elif op == "lshift_long":
+                bad = cells_ + [cells_[0]]
+            else:
+                if k < 2:
+                    return
+                bad = S.Table([S.Vector(list(e), name=nm) for nm, e in zip(names[:-1], case["extra"][:-1])])
+            try:
+                res = t << bad
+            except Exception:  # noqa: BLE001
+                ctx.label("ragged_row_rejected")
+                ctx.nontrivial()
+                return
+            if isinstance(res, S.Table):
+                return ctx.fail(f"struct/{op}/ragged-row-accepted", f"names {names} cells {cols} << {bad if not isinstance(bad, S.Table) else 'narrower table'}: "
+                                                                     f"shape {res.shape}")
+            return
+        elif op in ("rshift_iter", "rshift_gen", "rshift_tuple", "rshift_range"):
+            # a column handed over as a one-shot iterator, a generator, a tuple or a range: the same column as from a list
+            new_ = list(range(n)) if op == "rshift_range" else list(case["new"])
+            src_ = {"rshift_iter": lambda: iter(new_), "rshift_gen": lambda: (x for x in new_), "rshift_tuple": lambda: tuple(new_),
+                    "rshift_range": lambda: range(n)}[op]()
+            res = t >> src_
+            want = before + fz([new_])
         elif op == "rshift_vec":
             res = t >> S.Vector(list(case["new"]), name=case["new_name"])
             want = before + fz([case["new"]])
@@ -331,6 +362,8 @@ def run_struct(case, ctx):
             res = t.T.T
             want = before
     except Exception as e:  # noqa: BLE001
+        if type(e).__name__ == "Violation":
+            raise
         if n == 0 and op.startswith("rshift"):
             ctx.label("struct_refused_on_empty")
             return            # appending a column of n=0 values to a zero-row table: nothing to decide
